@@ -200,6 +200,19 @@ def oracle(run):
                 want_val = format_number(v * f)
                 if " ".join(val.split()) != want_val:
                     run.violate("C12:alternative-list-wrong", "%r %s: shows %r %s, expected %r" % (v, a, val, unit, want_val), {"name": a})
+    # the consumers of "equal amount": inlining in the compiler (direct and through a chain of definitions) and the linter's sums
+    prim = sorted({PRIMARY[n] for n in NAME_KIND})
+    seen = set()
+    for a in prim:
+        for b in prim:
+            if a == b:
+                continue
+            for chained in (False, True):
+                run.case(("consumers", a, b, chained), True, kind="equal-amount-consumers")
+                for sig, detail in check_consumers(a, b, chained, chained):
+                    if sig not in seen:
+                        seen.add(sig)
+                        run.violate(sig, detail, {"consumers": [a, b, chained, chained]})
     # equal amounts
     rng = run.rng
     for _ in range(run.budget(2000, 30000)):
@@ -219,8 +232,80 @@ def oracle(run):
             run.violate("C12:equal-amount-wrong", "%r vs %r: %s" % (x, y, got), {"a": [str(v), a], "b": [str(w), b]})
 
 
+def num_text(x):
+    """a number in the recipe syntax"""
+    x = Fraction(x)
+    if x.denominator == 1:
+        return str(x.numerator)
+    w, r = divmod(x.numerator, x.denominator)
+    return ("%d " % w if w else "") + "%d/%d" % (r, x.denominator)
+
+
+def check_consumers(a, b, chained, case):
+    """the consumers of 'same physical amount': the compiler folds a sub recipe into its single use exactly when the use takes the whole
+    amount, in whatever unit it is written (directly, or through a chain of definitions); the linter accepts uses that add up to the whole and
+    refuses to add amounts of different kinds. Several sub recipes in one description, each with its own unit."""
+    from recipe_grid.compiler import compile as rg_compile
+    from recipe_grid.lint import check as lint_check
+    out = []
+    f = real_convert(a, b)
+    same_kind = NAME_KIND[a] == NAME_KIND[b] and (NAME_KIND[a] in ("mass", "volume") or PRIMARY[a] == PRIMARY[b])
+    ua, ub = (a.upper(), b.title()) if case else (a, b)
+    if same_kind and f is not None:
+        v = Fraction(3)
+        w = v * Fraction(f)
+        if w.denominator > 10 ** 6 or w.numerator > 10 ** 12:
+            return out
+        # (1) folded: one definition, one use of the whole amount in the other unit
+        src = "%s %s flour\n" % (num_text(v), ua)
+        name = "flour"
+        if chained:
+            src += "sifted flour = sift(flour)\n"
+            name = "sifted flour"
+        src += "knead(%s %s of the %s, water)\n" % (num_text(w), ub, name)
+        try:
+            trees = rg_compile([src])[0].recipe_trees
+        except Exception as e:  # noqa
+            return [("C12:equal-amount-wrong", "compile raises %r for %r" % (e, src))]
+        if len(trees) != 1:
+            out.append(("C12:equal-amount-wrong", "the whole amount in another unit is not treated as the whole: %r compiles to %d trees" % (src, len(trees))))
+        # (2) two sub recipes with totals in different units, each used up by two halves written in the other's / its own unit: no findings
+        src2 = ("%s %s flour\n%s %s sugar\nmix(%s %s flour, %s %s sugar)\nbake(%s %s flour, %s %s sugar)\n"
+                % (num_text(2 * v), ua, num_text(2 * w), ub, num_text(w), ub, num_text(v), ua, num_text(v), ua, num_text(w), ub))
+        try:
+            kinds = sorted(x.kind.name for x in lint_check(rg_compile([src2])))
+        except Exception as e:  # noqa
+            return out + [("C12:equal-amount-wrong", "lint raises %r for %r" % (e, src2))]
+        if kinds:
+            out.append(("C12:equal-amount-wrong", "uses that add up to the whole in convertible units are reported %r: %r" % (kinds, src2)))
+    else:
+        # different kinds: a use written in a unit of another kind is refused, also when an earlier sub recipe of the description
+        # was (rightly) converted from that very unit
+        ka = [n for n in sorted(NAME_KIND) if NAME_KIND[n] == NAME_KIND[a] and n != a and real_convert(a, n) is not None]
+        if not ka:
+            return out
+        r = ka[0]
+        fr = Fraction(real_convert(a, r))
+        if fr.denominator > 10 ** 6:
+            return out
+        src3 = ("2 %s flour\n2 %s milk\nmix(%s %s flour, %s %s milk)\nbake(%s %s flour, %s %s milk)\n"
+                % (ua, ub, num_text(fr), r, num_text(fr), r, num_text(fr), r, num_text(fr), r))
+        try:
+            kinds = sorted(set(x.kind.name for x in lint_check(rg_compile([src3]))))
+        except Exception as e:  # noqa
+            return out + [("C12:converts-across-kinds", "lint raises %r for %r" % (e, src3))]
+        if kinds != ["sub_recipe_reference_incompatible_units"]:
+            out.append(("C12:converts-across-kinds", "flour in %s, milk in %s, both used in %s: lint reports %r, expected the incompatible units of the milk only: %r" % (a, b, r, kinds, src3)))
+    return out
+
+
 def replay(run, obj):
     r = obj["replay"]
+    if "consumers" in r:
+        res = check_consumers(*r["consumers"])
+        for x in res:
+            print(*x)
+        return bool(res)
     if "spelled" in r:
         res = check_recognition(r["name"], r["spelled"], r["sp"], r["prep"])
         for x in res:
